@@ -1,4 +1,5 @@
-/- Line-protocol front end for type equality under binders: `lub <type> | <type>`. -/
+/- Line-protocol front end for type equality under binders and of structural declarations:
+`lub <type> | <type>`. -/
 import ZV.Model.Lub
 
 namespace ZV.Driver.Lub
@@ -12,7 +13,9 @@ def tok : P String := fun s => match s with
 
 def nat : P Nat := do let t ← tok; match t.toNat? with | some n => pure n | none => failure
 
-/-- prefix notation: `v n`, `I`, `S`, `U`, `P a b`, `T b`, `R a`, `A a b`, `F k n body`, `E k n body` -/
+mutual
+/-- prefix notation: `v n`, `I`, `S`, `U`, `P a b`, `T b`, `R a`, `A a b`, `F k n body`, `E k n body`,
+`D n name1 ty1 ... namen tyn` (data with `n` arms in declaration order), `C n name1 ty1 ...` (codata) -/
 partial def ty : P Ty := do
   let t ← tok
   match t with
@@ -26,15 +29,26 @@ partial def ty : P Ty := do
   | "A" => do let a ← ty; let b ← ty; pure (.arr a b)
   | "F" => do let k ← nat; let x ← nat; let b ← ty; pure (.all k x b)
   | "E" => do let k ← nat; let x ← nat; let b ← ty; pure (.ex k x b)
+  | "D" => do let n ← nat; pure (.data (← arms n))
+  | "C" => do let n ← nat; pure (.codata (← arms n))
   | _ => failure
+partial def arms (n : Nat) : P Arms := do
+  match n with
+  | 0 => pure .nil
+  | n + 1 => do let name ← nat; let t ← ty; let rest ← arms n; pure (.cons name t rest)
+end
 
 def handle (ws : List String) : String :=
   match (do let a ← ty; let bar ← tok; let b ← ty; pure (a, bar, b) : P _).run ws with
   | some ((a, "|", b), []) =>
     let l := lubEq {} a b
     let e := alphaEq a b
-    -- the mirror's verdict; the specification's verdict is appended when the two differ
-    (if l then "equal" else "different") ++ (if l == e then "" else " but-alpha-says-" ++ (if e then "equal" else "different"))
+    -- the mirror's verdict; the specification's verdict is appended when the two differ, which the
+    -- theorem excludes for declarations without repeated names (`WF`); with repeated names the
+    -- mirror alone speaks
+    let wf := WF a && WF b
+    (if l then "equal" else "different") ++
+      (if l == e || !wf then "" else " but-alpha-says-" ++ (if e then "equal" else "different"))
   | _ => "bad-op"
 
 end ZV.Driver.Lub
